@@ -298,7 +298,7 @@ def result_fingerprint(r, depth=0):
     if isinstance(r, SymQuantity):
         try:
             deps = dimsys_SI.get_dimensional_dependencies(r.dimension)
-            dim = sorted((str(k), str(v)) for k, v in deps.items())
+            dim = sorted((str(getattr(k, "name", k)), str(v)) for k, v in deps.items())
         except Exception:  # pylint: disable=broad-except
             dim = mask(str(r.dimension))
         return {"q": number(r.scale_factor), "dim": dim}
